@@ -88,7 +88,7 @@ def parse_tlc(out):
     return r
 
 
-def tlc_design(module, cfg, workers=NCPU, heap='6g', timeout=3000, coverage=True, extra=None):
+def tlc_design(module, cfg, workers=NCPU, heap='6g', timeout=3000, coverage=True, extra=None, cwd=None):
     meta = os.path.join(BUILD, 'tlc', '%s_%s_%d' % (module, os.path.basename(cfg), os.getpid()))
     shutil.rmtree(meta, ignore_errors=True)
     os.makedirs(meta, exist_ok=True)
@@ -99,7 +99,7 @@ def tlc_design(module, cfg, workers=NCPU, heap='6g', timeout=3000, coverage=True
         args += extra
     args += [module + '.tla']
     t0 = time.time()
-    rc, out = java_tlc(args, heap=heap, gc='Parallel', timeout=timeout)
+    rc, out = java_tlc(args, heap=heap, gc='Parallel', timeout=timeout, cwd=cwd or SPEC)
     r = parse_tlc(out)
     r['rc'] = rc
     r['wall_s'] = round(time.time() - t0, 1)
@@ -1324,7 +1324,141 @@ def check_C14(ctx):
               thorough_designs=[('MC_Sync', 'MC_Sync_once3.cfg')])
 
 
-CHECKS = {'C01': check_C01, 'C02': check_C02, 'C04': check_C04, 'C09': check_C09, 'C10': check_C10, 'C11': check_C11, 'C05': check_C05, 'C06': check_C06, 'C07': check_C07,
+# ----------------------------------------------------------------------------- C03: context switch
+PROBE_SKIP = ('EX', 'TESTCANCEL', 'PROBE', 'END', 'KCREATE', 'KDELETE', 'CANCEL', 'BUSY', 'SETV')
+
+
+def with_probes(prog, rng, p=0.5):
+    """insert a PROBE before operations that may suspend the thread (never before one that does not return)"""
+    skip = set(OP[x] for x in PROBE_SKIP)
+    out = []
+    for body in prog['bodies']:
+        nb = []
+        for o in body:
+            if o[0] not in skip and rng.random() < p:
+                nb.append((OP['PROBE'], rng.randrange(1, 1000), 0, 0))
+            nb.append(o)
+        out.append(nb)
+    return {'init': prog['init'], 'bodies': out}
+
+
+def gen_probe_prog(rng):
+    g = rng.choice((lambda r: {'init': [], 'bodies': gen_core_prog(r, maxb=8, flagset=(0, 0, F_PF, F_PF, F_STACK, F_PF | F_STACK, F_DETACH), reap=('JN', 'JN', 'TJ', 'DT'))},
+                    lambda r: {'init': [], 'bodies': gen_core_prog(r, maxb=8, flagset=(0, F_PF), reap=('JN',))},
+                    gen_queue_prog, gen_mutex_prog, gen_cond_prog, gen_barrier_prog, gen_uncond_prog, gen_felock_prog, gen_jc_prog, gen_timed_prog))
+    prog = g(rng)
+    if isinstance(prog, list):
+        prog = {'init': [], 'bodies': prog}
+    return with_probes(prog, rng)
+
+
+def ctx_model(ctx, wd, tag, mutate=None, hdrdir=None, cfgs=(), consts=None):
+    """extract the instruction lists (optionally from a mutated header / with a model-level mutation) into a private
+    directory next to a copy of CtxSwitch.tla and run the given configurations; returns list of TLC results"""
+    lib = os.path.join(BUILD, 'lib')
+    d = os.path.join(wd, 'ctx_' + tag); shutil.rmtree(d, ignore_errors=True); os.makedirs(d)
+    shutil.copy(os.path.join(SPEC, 'CtxSwitch.tla'), d)
+    cmd = ['python3', os.path.join(VERIF, 'tools', 'extract_asm.py'), REPO, (lib + '/cfg') if os.path.isdir(lib + '/cfg') else '', os.path.join(d, 'CtxAsm.tla')]
+    if hdrdir:
+        cmd += ['--hdr', hdrdir + '/src']
+    if mutate:
+        cmd += ['--mutate', mutate]
+    rc, o = sh(cmd, timeout=120)
+    if rc != 0:
+        raise Infra('extraction of the context-switch instruction lists failed: ' + o[-1500:])
+    unknown = [l for l in o.split('\n') if l.startswith('UNKNOWN')]
+    res = []
+    for base, nsw in cfgs:
+        t = open(os.path.join(SPEC, base)).read()
+        t = re.sub(r'MaxSwitches = \d+', 'MaxSwitches = %d' % nsw, t)
+        for k_, v_ in (consts or {}).items():
+            t = re.sub(r'%s = \d+' % k_, '%s = %d' % (k_, v_), t)
+        open(os.path.join(d, base), 'w').write(t)
+        r = tlc_design('CtxSwitch', os.path.join(d, base), coverage=False, heap='8g', timeout=7200, cwd=d)
+        r['nsw'] = nsw
+        res.append(r)
+    return res, unknown, d, o
+
+
+def check_C03(ctx):
+    lib = build_lib()
+    binary = build_harness(lib, 'mythprog', ['mythprog.c'])
+    wd = ctx.work
+    # --- (1) initial stack pointers made by the real myth_make_context_* for every residue of the stack top
+    unit = os.path.join(BUILD, 'ctx_unit')
+    inc = '-I%s/include -I%s/src %s' % (REPO, REPO, ('-I%s/cfg' % lib) if os.path.isdir(lib + '/cfg') else '')
+    rc, o = sh('gcc -O1 -w -D_GNU_SOURCE -DMYTH_WRAP=MYTH_WRAP_VANILLA %s -o %s %s/harness/ctx_unit.c && %s' % (inc, unit, VERIF, unit), timeout=120)
+    if rc != 0:
+        raise Infra('ctx_unit failed: ' + o[-1500:])
+    uo = os.path.join(wd, 'ctx_unit.out'); open(uo, 'w').write(o)
+    cfp, pfp = set(), set()
+    for l in o.strip().split('\n'):
+        kv = dict(x.split('=') for x in l.split())
+        r_ = int(kv['r'])
+        if int(kv['cf_mod16']) not in (0, 8) or int(kv['pf_mod16']) not in (0, 8):
+            ctx.violation('initial stack pointer of a new thread is not 8-byte aligned (stack top residue %d): %s' % (r_, l), [uo]); continue
+        if int(kv['cf_below']) < 0 or int(kv['pf_below']) < 8 or int(kv['cf_below']) > 64 or int(kv['pf_below']) > 64:
+            ctx.violation('initial stack pointer of a new thread lies outside (or far below the top of) its stack (stack top residue %d): %s' % (r_, l), [uo])
+        if kv['pf_entry_at_sp'] != '1':
+            ctx.violation('the entry address of a parent-first thread is not stored where its initial stack pointer points (stack top residue %d)' % r_, [uo])
+        cfp.add(int(kv['cf_mod16']) // 8); pfp.add(int(kv['pf_mod16']) // 8)
+    ctx.cov['initial_sp_parities'] = {'make_context_empty': sorted(cfp), 'make_context_voidcall': sorted(pfp)}
+    # --- (2) the abstract machine over the extracted instruction lists
+    cfgs = [('MC_Ctx1.cfg', 4), ('MC_Ctx2.cfg', 3)] if ctx.quick else [('MC_Ctx1.cfg', 6), ('MC_Ctx2.cfg', 4)]
+    for cf in sorted(cfp) or [0]:
+        for pf in sorted(pfp) or [0]:
+            res, unknown, d, eo = ctx_model(ctx, wd, 'real_%d%d' % (cf, pf), cfgs=cfgs, consts={'InitCFpar': cf, 'InitPFpar': pf})
+            if unknown:
+                raise Infra('the context-switch code contains instructions the abstract machine does not model: %s' % unknown)
+            ctx.log('extracted ' + eo.strip().split('\n')[-1])
+            for r in res:
+                ctx.cov['states'] += r['distinct']; ctx.cov['transitions'] += r['states']
+                ctx.cov['design_runs'].append({'module': 'CtxSwitch', 'cfg': '%s MaxSwitches=%d InitCFpar=%d InitPFpar=%d' % (r['cfg'], r['nsw'], cf, pf), 'distinct_states': r['distinct'],
+                                               'states_generated': r['states'], 'depth': r['depth'], 'wall_s': r['wall_s'], 'result': 'ok' if r['ok'] else r['violation']})
+                ctx.log('MC CtxSwitch %s (MaxSwitches %d): %d distinct states, %.0fs, %s' % (r['cfg'], r['nsw'], r['distinct'], r['wall_s'], 'ok' if r['ok'] else 'VIOLATED'))
+                if not r['ok']:
+                    f = os.path.join(wd, 'tlc_ctx_%s.out' % r['cfg']); open(f, 'w').write(r['out'])
+                    m = re.search(r'bad = "([^"]*)"', r['out'][max(r['out'].rfind('bad = '), 0):])
+                    ctx.violation('abstract machine over the extracted context-switch code: %s (%s)' % (m.group(1) if m else r['violation'], r['cfg']), [f, os.path.join(d, 'CtxAsm.tla')])
+    ctx.cov['samples'].append({'extracted_module': open(os.path.join(d, 'CtxAsm.tla')).read()[:3000]})
+    # --- (3) calibration: model-level mutants of the extracted lists must be caught by the same configurations
+    muts = ['drop_push_r12', 'redzone_64'] if ctx.quick else ['drop_push_r12', 'redzone_64', 'drop_pad', 'call_before_save', 'r8_not_clobbered', 'save_into_to']
+    for mname in muts:
+        res, _, _, _ = ctx_model(ctx, wd, 'mut_' + mname, mutate=mname, cfgs=[('MC_Ctx1.cfg', 4)])
+        if res[0]['ok']:
+            raise Infra('calibration: model mutant %s is not detected by MC_Ctx1' % mname)
+        ctx.cov['design_runs'].append({'module': 'CtxSwitch', 'cfg': 'MC_Ctx1.cfg, mutant ' + mname, 'result': 'violated (expected)'})
+    # --- (4) binding of the extraction to the source: a mutated copy of the header must yield a model that fails
+    hd = os.path.join(wd, 'hdr'); shutil.rmtree(hd, ignore_errors=True); os.makedirs(hd + '/src')
+    src = open(os.path.join(REPO, 'src', 'myth_context_func.h')).read()
+    mut = src.replace('\t"push %%r14\\n"\\\n', '', 1).replace('\t"pop %%r14\\n"\\\n', '', 1)
+    if mut == src:
+        raise Infra('bind self-test: push/pop %r14 not found in myth_context_func.h')
+    open(hd + '/src/myth_context_func.h', 'w').write(mut)
+    res, _, _, _ = ctx_model(ctx, wd, 'srcmut', hdrdir=hd, cfgs=[('MC_Ctx1.cfg', 4)])
+    if res[0]['ok']:
+        raise Infra('bind self-test: removing push/pop %r14 from a copy of the header is not noticed')
+    ctx.cov['bind_selftest'].append({'corruption': 'push/pop %r14 removed from a copy of myth_context_func.h', 'rejected': True})
+    # --- (5) C->S: probes and alignment events in whole-library runs
+    nws = NWS_QUICK if ctx.quick else NWS_THOROUGH
+    progs, runs = core_runs(ctx, 40 if ctx.quick else 400, 6, gen_probe_prog, nws)
+    res, fails = traced_check(ctx, binary, progs, runs, CORE_INV)
+    nprobe = ctx.cov['spec_actions_matched'].get('U_Probe', 0)
+    if nprobe < 50:
+        raise Infra('vacuity: only %d probes executed' % nprobe)
+    ctx.cov['probes_compared'] = nprobe
+    binds = [('probe_register_lost', mut_first(lambda e: e['e'] == 'U_Probe', set_arg(2, 4))),
+             ('probe_stack_changed', mut_first(lambda e: e['e'] == 'U_Probe', set_arg(3, 2))),
+             ('callback_misaligned', mut_first(lambda e: e['e'] == 'CbEnter', set_arg(1, 8))),
+             ('entry_misaligned', mut_first(lambda e: e['e'] == 'ThreadEntry', set_arg(0, 8)))]
+    g = best_bind_trace(res, fails, binds)
+    if g:
+        bind_selftest(ctx, g, CORE_INV, binds)
+    ctx.assumptions += ['instruction lists are those of the asm statements as compiled by gcc -O2 in a stub that includes the real header; vector / x87 state is not modelled',
+                        'the abstract machine is bounded (3 threads, 1-2 workers, 3-6 switches); the probes sample programs and schedules']
+
+
+CHECKS = {'C03': check_C03, 'C01': check_C01, 'C02': check_C02, 'C04': check_C04, 'C09': check_C09, 'C10': check_C10, 'C11': check_C11, 'C05': check_C05, 'C06': check_C06, 'C07': check_C07,
           'C08': check_C08, 'C12': check_C12, 'C13': check_C13, 'C14': check_C14, 'C15': check_C15, 'C17': check_C17, 'C18': check_C18, 'C19': check_C19, 'C20': check_C20}
 
 
